@@ -687,7 +687,7 @@ def run(tier, seed, replay=None):
     tools = build_tools()
     drv = C.driver_exe("clidriver")
     variant = os.environ.get("C14_MODEL", "fixed")
-    workroot = os.path.join(C.BUILD, "work")
+    workroot = os.path.join(C.BUILD, "work-c14-%d" % os.getpid())
     os.makedirs(workroot, exist_ok=True)
     ctx = Ctx(tools, workroot)
     t0 = time.time()
